@@ -19,7 +19,7 @@ pub fn convert(
 ) -> Result<Expression, LintErrorPos> {
     // can we fold it into a name?
     let opt_folded_name = try_fold(&left_side, property_name.clone());
-    if let Some(folded_name) = opt_folded_name {
+    if let Some(folded_name) = opt_folded_name.clone() {
         // checking out if we have an existing variable / const etc that contains a dot
         let mut rules: Vec<Box<dyn VarResolve>> = vec![];
         rules.push(Box::new(ExistingVar::default()));
@@ -48,6 +48,25 @@ pub fn convert(
     } = unboxed_left_side
         .at_pos(extra.pos)
         .convert_in(ctx, ExprContext::ResolvingPropertyOwner)?;
+
+    // A.B where A is not a variable, or is a variable or constant that has no members
+    // (A = 1 : A.B = 2, and A.B in A.B.C): the dot is a character of the name
+    if let Some(folded_name) = opt_folded_name {
+        if !matches!(
+            resolved_left_side.expression_type(),
+            ExpressionType::UserDefined(_)
+        ) {
+            return if extra.element == ExprContext::ResolvingPropertyOwner {
+                // stay unresolved, like a plain name does
+                Ok(Expression::Variable(
+                    folded_name,
+                    ExpressionType::Unresolved,
+                ))
+            } else {
+                Ok(add_as_new_implicit_var(ctx, extra, folded_name))
+            };
+        }
+    }
 
     // functions cannot return udf so no need to check them
     match &resolved_left_side {
